@@ -422,13 +422,11 @@ func evalC09(c *engine.Case) engine.Verdict {
 					v.Failf("step %d: the function returned by the Redefine of step %d now gives outcome %s, its first call gave %s", si, oldStep, a, oldClass)
 					return v
 				}
-				// (which supplied value feeds a type-only parameter may be a tie
-				// between an original argument and a fresh one: only the set of
-				// executed functions is compared, not provenance)
-				if a := executedSet(o2.Events); a != oldLog {
-					v.Failf("step %d: the function returned by the Redefine of step %d executes other functions after a later Redefine: first %s, now %s", si, oldStep, oldLog, a)
-					return v
-				}
+				// (the fresh values handed to the redefined function compete with
+				// what the converters can produce -- a parameter may be fed by
+				// either, and which functions run is then a tie: only the outcome
+				// class is compared, neither provenance nor the executed set)
+				_ = oldLog
 				v.Class("earlier-redefined-function-recalled")
 			}
 			diverged = true // the twin does not mirror this extra call
